@@ -24,6 +24,7 @@ structure Inv (s : St) : Prop where
   bm_in : bmOffBlk s + bmLenBlk s ≤ nbits s
   bmoff_al : s.bmoff % bsz s = 0
   bmlen_al : s.bmlen % bsz s = 0
+  bmlen_pos : 0 < bmLenBlk s
   /-- the page holds at least one block -/
   au : 0 < aunitBlk s
 
